@@ -1,7 +1,7 @@
 (** C05 — Wordlist password structure matches the recipe (atoms, caps, separators). *)
 From Spg.Base Require Import Prelude Utf8 Bytes.
 From Spg.Model Require Import Tables Rand GenM CharSets CharGen Token WordList WordGen.
-From Spg.Proofs Require Import GenProofs WordGenProofs.
+From Spg.Proofs Require Import GenProofs WordGenProofs WordShapeProofs.
 Close Scope N_scope.
 
 (** On every stream of raw words, for every title function, budget and recipe: a
@@ -53,6 +53,36 @@ Theorem C05_starts_with_atom : forall (atoms seps : list bytes) a, atoms <> [] -
   hd_error (assemble atoms seps) = Some a -> ttype a = AtomType.
 Proof. exact assemble_head. Qed.
 
+
+(** The same in observable form, for lists without an empty word (every kept
+    word and its title form non-empty; see F7): Atoms() returns exactly Length
+    values, the i-th being the word drawn for position i, title-cased exactly
+    where the scheme's pattern says; with a constant separator Separators()
+    returns exactly Length-1 copies of it (none when it is empty); the first
+    and the last token are atoms. *)
+Theorem C05_atoms_exact : forall title b r ws ts e rest wl,
+  run_words (wl_generate title b r) ws = RDone (Done (ts, e)) rest ->
+  wrList r = Some wl -> no_empty_word title wl ->
+  exists caps (idxs : list N),
+    caps_allowed (wrCap r) (Z.to_nat (wrLength r)) caps /\
+    length idxs = Z.to_nat (wrLength r) /\ Forall (fun i => (i < N.of_nat (length (wlWords wl)))%N) idxs /\
+    length (of_type AtomType ts) = Z.to_nat (wrLength r) /\
+    of_type AtomType ts =
+      map (fun ci : bool * N => let w0 := nth (N.to_nat (snd ci)) (wlWords wl) [] in if fst ci then title w0 else w0) (combine caps idxs) /\
+    Forall (fun a => exists w, In w (wlWords wl) /\ (a = w \/ a = title w)) (of_type AtomType ts).
+Proof. exact wl_atoms_exact. Qed.
+Theorem C05_separators_exact : forall title b r ws ts e rest wl c,
+  run_words (wl_generate title b r) ws = RDone (Done (ts, e)) rest ->
+  wrList r = Some wl -> no_empty_word title wl -> (wrSep r = SepChar c \/ wrSep r = SepConst c) ->
+  of_type SeparatorType ts = match c with [] => [] | _ => repeat c (pred (Z.to_nat (wrLength r))) end.
+Proof. exact wl_separators_const. Qed.
+Theorem C05_no_leading_or_trailing_separator : forall title b r ws ts e rest wl,
+  run_words (wl_generate title b r) ws = RDone (Done (ts, e)) rest ->
+  wrList r = Some wl -> no_empty_word title wl ->
+  (forall t, hd_error ts = Some t -> ttype t = AtomType) /\
+  (forall t, hd_error (rev ts) = Some t -> ttype t = AtomType) /\ ts <> [].
+Proof. exact wl_ends_are_atoms. Qed.
+
 (** String() is the concatenation of the token values; Atoms()/Separators() are
     the values of that type in order: these are the definitions [pw_string] and
     [of_type] of Model/Token.v, compared with the implementation in every family. *)
@@ -73,3 +103,6 @@ Print Assumptions C05_separators.
 Print Assumptions C05_no_separator_tokens.
 Print Assumptions C05_starts_with_atom.
 Print Assumptions C05_string_is_concat.
+Print Assumptions C05_atoms_exact.
+Print Assumptions C05_separators_exact.
+Print Assumptions C05_no_leading_or_trailing_separator.
